@@ -161,3 +161,68 @@ Print Assumptions backends_agree_when_both_accept_refuted.
 Theorem common_parse_reuses_c07 : forall s, common_parse_df false s = common_parse (fold_str s).
 Proof. exact common_parse_df_false. Qed.
 Print Assumptions common_parse_reuses_c07.
+
+(* ------------------------------------------------------------ the pure-Python chain and offset_in_range (Proofs/C17PyTotal.v) *)
+From PV Require Import Model.C07Regex Gen.IsoRegex Proofs.C17PyTotal.
+
+(* 12. generic, any pattern: every group of a successful re.match holds a text accepted (declarative reading of the pattern) by the
+   body of a group with that number — the "match_sound" lemma of DESIGN section 3.5 *)
+Theorem regex_group_language : forall R ng s c, re_match R ng s = Some c ->
+  forall g t, grp c g = Some t -> exists a, In a (bodies R g) /\ accepts a t.
+Proof. exact re_match_group_lang. Qed.
+Print Assumptions regex_group_language.
+
+(* 13. ISO8601_DT never matches a text that starts with 'P' (so a half of an interval that starts with 'P' is a duration or an error) *)
+Theorem iso_datetime_regex_rejects_P : forall t, re_match ISO_RE ISO_NGROUPS (80 :: t) = None.
+Proof. exact iso_re_P. Qed.
+Print Assumptions iso_datetime_regex_rejects_P.
+
+(* 14. parse_total, pure-Python backend: EVERY string, EVERY option combination, the same assumption on dateutil as parse_total_rs:
+   a supported value or ValueError/ParserError — no TypeError, AttributeError, OverflowError, RuntimeError (out of fuel), KeyError.
+   _partial: one region of the MODEL is excluded, `py_parts_unmodelled s` = the text is an interval whose duration half has a negative
+   float `total_seconds() - (years*365 + months*30)*86400`; the model marks that E_Exception ("outside the modelled fragment" of
+   Duration's derived fields — it is NOT an exception of the real code, and NOT a listed finding).  The region is empty in reality
+   (the components of a parsed duration are non-negative and rounding to nearest is monotone); proving it needs the real-number
+   semantics of Model/DurParse.v int_truediv / fsub (not linked to Flocq), which is what is missing.  The predicate is decidable. *)
+Theorem parse_total_py_partial : forall (du : list Z -> bool -> bool -> result pval),
+  (forall s a b, match du s a b with Ok _ | Raise E_ValueError | Raise E_ParserError | Raise E_OverflowError => True | Raise _ => False end) ->
+  forall o s, py_parts_unmodelled s = false -> out_ok (parse_full du false o s).
+Proof. exact parse_total_py_region. Qed.
+Print Assumptions parse_total_py_partial.
+
+(* ... unconditional on every text without '/' (no interval), and the region is empty on the interval witnesses *)
+Theorem parse_total_py_no_interval : forall (du : list Z -> bool -> bool -> result pval),
+  (forall s a b, match du s a b with Ok _ | Raise E_ValueError | Raise E_ParserError | Raise E_OverflowError => True | Raise _ => False end) ->
+  forall o s, has_slash s = false -> out_ok (parse_full du false o s).
+Proof. intros du H o s Hs. apply (parse_total_py_region du H o s). apply py_parts_unmodelled_noslash. exact Hs. Qed.
+Print Assumptions parse_total_py_no_interval.
+
+Theorem py_parts_region_empty_on_witnesses :
+  py_parts_unmodelled [50;48;50;49;45;48;49;45;48;49;47;80;49;89;50;77;51;68;84;52;72;53;77;54;46;53;83] = false /\
+  py_parts_unmodelled [80;49;89;47;50;48;50;49;45;48;49;45;48;49] = false /\
+  py_parts_unmodelled [80;49;46;53;87;47;50;48;50;49;45;48;49;45;48;49] = false.
+Proof. exact py_parts_region_examples. Qed.
+Print Assumptions py_parts_region_empty_on_witnesses.
+
+(* 15. the interval assembly of the pure-Python backend never sees a wrong kind of half: the forms _parse_iso8601_interval returns are
+   (date-time, date-time), (date-time, Duration) or (Duration, date-time) — the TypeError / AttributeError branches are unreachable *)
+Theorem interval_forms_py : forall s f, interval_parse py_iso8601 s = Ok f -> py_form f /\ all_dt f = true.
+Proof. intros s f H. split; [exact (interval_parse_py_form s f H)|exact (interval_parse_dt _ _ _ H)]. Qed.
+Print Assumptions interval_forms_py.
+
+(* 16. offset_in_range at full strength, BOTH backends: every string, every option combination whose tz option is a legal fixed offset,
+   ANY dateutil (no assumption): every DateTime in the value parse returns (a DateTime, or the two ends of an Interval) carries an
+   offset strictly between -24 h and +24 h.  (compiled: rs_offset_in_range propagated through the descent; pure-Python: the tz group
+   of ISO8601_DT is Z or a sign followed by digits/colon — theorem 12 — and py_tz_offset checks the upper bound) *)
+Theorem offset_in_range : forall du rs o s v, tz_opt_ok o -> parse_full du rs o s = Ok v -> off_ok_v v.
+Proof. exact offset_in_range_all. Qed.
+Print Assumptions offset_in_range.
+
+(* 17. parse_total, either backend (the conjunction; compiled: unconditional, pure-Python: outside the model region of theorem 14) *)
+Theorem parse_total_partial : forall (du : list Z -> bool -> bool -> result pval),
+  (forall s a b, match du s a b with Ok _ | Raise E_ValueError | Raise E_ParserError | Raise E_OverflowError => True | Raise _ => False end) ->
+  forall (rs : bool) o s, (rs = false -> py_parts_unmodelled s = false) -> out_ok (parse_full du rs o s).
+Proof.
+  intros du H rs o s R. destruct rs; [exact (parse_total_rs du H o s)|exact (parse_total_py_region du H o s (R eq_refl))].
+Qed.
+Print Assumptions parse_total_partial.
